@@ -183,7 +183,7 @@ def build(repo=None):
                     ob["serves"] = ["C12", "C16"]  # the '?' label protocol is both a restore obligation and the C16 mechanism
                 if c.startswith("C12:flatten"):
                     # 'the type-only mode is on exactly while a tree is flattened' is the invariant the array checks rely on (C01/C02/C03)
-                    ob["serves"] = ["C12", "C08", "C01", "C02", "C03"]
+                    ob["serves"] = ["C12", "C08", "C01", "C02", "C03", "C17"]
             obligations.append(ob)
 
     # ================================================================== __instancecheck__
